@@ -45,14 +45,17 @@ Record delta_facts (e e' : ep) (o : list ppkt) (dn an : nat) (gotc : bool) : Pro
   d_close : hasc o = negb (is_sclosed (e_ss e)) && is_sclosed (e_ss e');
   d_mono : e_ss e = SClosed -> e_ss e' = SClosed;
   d_rs : rs_closedish (e_rs e) || gotc = true -> rs_closedish (e_rs e') = true;
-  d_init : e_init e' = e_init e
+  d_init : e_init e' = e_init e;
+  d_schan : e_schan e' = true -> e_schan e = true
 }.
 Definition delta (e e' : ep) (o : list ppkt) (dn an : nat) (gotc : bool) : Prop :=
   linv e -> delta_facts e e' o dn an gotc.
 
 (* evaluation by cases: split on a variable that blocks a match; when there is none, on a boolean test *)
+Ltac cbg := cbn -[Nat.ltb Nat.leb Nat.eqb Nat.mul Nat.add Nat.sub Nat.min].
+Ltac cbh := cbn -[Nat.ltb Nat.leb Nat.eqb Nat.mul Nat.add Nat.sub Nat.min] in *.
 Ltac csplit :=
-  repeat (cbn;
+  repeat (cbg;
           first [ match goal with
                   | |- context [match ?d with _ => _ end] => is_var d; destruct d
                   end
@@ -65,8 +68,10 @@ Ltac csplit :=
                   end ]).
 
 Ltac lsolve :=
-  cbn in *; intros;
+  cbh; intros;
   repeat match goal with
+         | H : (_ <=? _) = true |- _ => apply Nat.leb_le in H
+         | H : (_ <=? _) = false |- _ => apply Nat.leb_gt in H
          | H : _ /\ _ |- _ => destruct H
          | H : (_ <? _) = true |- _ => apply Nat.ltb_lt in H
          | H : (_ <? _) = false |- _ => apply Nat.ltb_ge in H
@@ -83,13 +88,13 @@ Ltac lsolve :=
         | solve [ repeat match goal with
                          | x : sstate |- _ => destruct x
                          | x : rstate |- _ => destruct x
-                         end; cbn in *;
+                         end; cbh;
                   first [ discriminate | congruence | lia | tauto
                         | solve [intuition (try discriminate; try congruence; try lia)] ] ] ].
 
 Ltac dfin :=
-  intros [H1 H2 H3 H4 H5 H6 H7 H8 H9 H10 H11 H12]; cbn in *;
-  constructor; [ constructor; lsolve | lsolve | lsolve | lsolve | lsolve | lsolve | lsolve ].
+  intros [H1 H2 H3 H4 H5 H6 H7 H8 H9 H10 H11 H12]; cbh;
+  constructor; [ constructor; lsolve | lsolve | lsolve | lsolve | lsolve | lsolve | lsolve | lsolve ].
 
 Lemma close_send_delta e : let '(e', o) := close_send e in delta e e' o 0 0 false.
 Proof. destruct e; unfold delta, close_send, emit; csplit; dfin. Qed.
@@ -99,8 +104,49 @@ Lemma flush_delta e : let '(e', o) := flush e in delta e e' o 0 0 false.
 Proof. destruct e; unfold delta, flush, close_send, emit, w_ss. Time bf. Qed.
 
 Lemma flush_recv_delta e : let '(e', o) := flush_recv e in delta e e' o 0 0 false.
-Proof. destruct e; unfold delta, flush_recv, deliver, write_eof, flush, close_send, emit, w_ss. csplit.
-  all: intros [H1 H2 H3 H4 H5 H6 H7 H8 H9 H10 H11 H12]; cbn in *; constructor; [constructor|..].
-  all: try lsolve.
-  Show.
+Proof. destruct e; unfold delta, flush_recv, deliver, write_eof, flush, close_send, emit, w_ss. bf. Qed.
+
+Lemma write_eof_delta e : let '(e', o) := write_eof e in delta e e' o 0 0 false.
+Proof. destruct e; unfold delta, write_eof, flush, close_send, emit, w_ss. bf. Qed.
+Lemma close_half_delta e : let '(e', o) := close_half e in delta e e' o 0 0 false.
+Proof. destruct e; unfold delta, close_half, flush, close_send, emit, w_ss. bf. Qed.
+Lemma abort_half_delta e : let '(e', o) := abort_half e in delta e e' o 0 0 false.
+Proof. destruct e; unfold delta, abort_half, close_send, emit. bf. Qed.
+Lemma recv_half_delta e : let '(e', o) := recv_half true e in delta e e' o 0 0 false.
+Proof. destruct e; unfold delta, recv_half, discard_recv, emit. bf. Qed.
+Lemma l_write_delta e n : let '(e', o) := l_write e n in delta e e' o 0 0 false.
+Proof. destruct e; unfold delta, l_write, flush, close_send, emit, w_ss. bf. Qed.
+Lemma set_paused_delta e b : delta e (set_paused b e) [] 0 0 false.
+Proof. destruct e; unfold delta, set_paused. bf. Qed.
+Lemma l_run_delta e : delta e (l_run e) [] 0 0 false.
+Proof. destruct e; unfold delta, l_run. bf. Qed.
+Lemma p_adjust_delta e n : let '(e', o, err) := p_adjust e n in err = false -> delta e e' o 0 n false.
+Proof. destruct e; unfold delta, p_adjust, ok, flush, close_send, emit, w_ss. csplit; intros Herr; try discriminate; dfin. Qed.
+Lemma p_data_delta e n : let '(e', o, err) := p_data true e n in err = false -> delta e e' o n 0 false.
+Proof. destruct e; unfold delta, p_data, ok, deliver, emit. csplit; intros Herr; try discriminate; dfin. Qed.
+
+(* sequential composition of endpoint actions (the second one consumes no data) *)
+Lemma delta_trans e e1 e2 o1 o2 dn an1 an2 g1 g2 :
+  delta e e1 o1 dn an1 g1 -> delta e1 e2 o2 0 an2 g2 -> delta e e2 (o1 ++ o2) dn (an1 + an2) (g1 || g2).
+Proof.
+  intros D1 D2 Hl. destruct (D1 Hl) as [I1 S1 R1 C1 M1 Q1 N1 K1]. destruct (D2 I1) as [I2 S2 R2 C2 M2 Q2 N2 K2].
+  constructor; auto.
+  - rewrite din_app. lia.
+  - intros Hb Hs. rewrite ain_app. specialize (K2 Hs). specialize (R1 Hb K2).
+    assert (Hb2 : 0 + e_rbuf e1 <= e_rwin e1) by (destruct I1 as [_ _ _ _ _ _ _ _ (_ & _ & _ & ?) _ _ _]; lia).
+    specialize (R2 Hb2 Hs). lia.
+  - rewrite hasc_app, C1, C2. destruct (e_ss e) eqn:Ea, (e_ss e1) eqn:Eb, (e_ss e2) eqn:Ec; cbn; auto;
+      try (specialize (M1 eq_refl); discriminate); try (specialize (M2 eq_refl); discriminate).
+  - intros Hc. apply Q2. apply orb_true_iff. apply orb_true_iff in Hc as [Hc|Hc].
+    + left. apply Q1. rewrite Hc. reflexivity.
+    + apply orb_true_iff in Hc as [Hc|Hc]; [left; apply Q1; rewrite Hc; apply orb_true_r | right; exact Hc].
+  - congruence.
+Qed.
+
+Lemma l_resume_delta e : let '(e', o) := l_resume e in delta e e' o 0 0 false.
+Proof.
+  unfold l_resume. destruct (e_paused e) eqn:Ep.
+  - pose proof (flush_recv_delta (set_paused false e)) as Hf. destruct (flush_recv (set_paused false e)) as [e' o].
+    pose proof (delta_trans e (set_paused false e) e' [] o 0 0 0 false false (set_paused_delta e false) Hf) as H. exact H.
+  - destruct e; unfold delta. bf.
 Qed.
